@@ -582,6 +582,47 @@ def probe_execs(rng, plan, phones):
     return out
 
 
+def collision_probes(rng, plan, phones, taken, libdir):
+    """A new word that CONTINUES an existing one and falls into the same bucket of the dictionary's own hash table (the
+    shorter word loaded from the file, or added a moment before): it is a different word and must be added as such.
+    The buckets are asked of the real table code (the hash-table harness of C20, a table of the dictionary's size)."""
+    from checks import c20
+    hdrv = sut.build_harness("hash_drv", ["hash/hash_drv.c"], libdir)
+    out = []
+    nwords = sum(1 for _ in open(os.path.join(sut.REPO, "tests", "data", "turtle.dic")))
+    for i, short in enumerate([fresh_word(rng, plan, taken, 3, 5), b"meters", b"go", fresh_word(rng, plan, taken, 4, 6)]):
+        cands = []
+        while len(cands) < 40000:
+            w = short + bytes(rng.choice(b"abcdefghijklmnopqrstuvwxyz") for _ in range(4))
+            if not plan.has(w) and w not in taken:
+                cands.append(w)
+        same = []
+        for k in range(0, len(cands), 15000):       # (the harness holds 20000 keys at a time)
+            part = cands[k:k + 15000]
+            bks = c20.ask_buckets(hdrv, [short] + part, 0, nwords + 4096, 0)
+            same += [c for c, b in zip(part, bks[1:]) if b == bks[0]]
+        if not same:
+            continue
+        long_ = same[0]
+        taken.add(long_)
+        ex = Exec("probe-prefix-collision-%d" % i, "turtle", "-", [short, long_, b"go", b"ten", b"meters"], [])
+        S = ex.sid
+        P = lambda n=3: join_phones(rng, rand_pron(rng, phones, n, True))
+        c = ex.cmds
+        c.append(("check",))
+        if not plan.has(short):
+            c.append(("add", S(short), 0, P(2)))
+        c.append(("add", S(long_), 0, P(3)))
+        c.append(("check",))
+        c.append(("jsgf", 0, 0, [S(b"go"), S(long_), S(b"ten")]))
+        c.append(("align", 0, 0, [S(short), S(long_)]))
+        c.append(("scan",))
+        out.append(ex)
+    if len(out) < 2:
+        raise tlc.ModelError("could not construct colliding spellings for the dictionary's table")
+    return out
+
+
 def context_probes(rng, plan, phones, taken):
     """Words whose first two / last two phones begin / end no word of tests/data/turtle.dic, so that the word-initial and
     word-final context tables have to be filled on demand, for every length: 2, 3, 4, 6 phones, then three-phone and
@@ -1459,6 +1500,7 @@ def run(ctx):
 
     # 2. probes of every input class (decide which classes are broken on this tree)
     D.process(probe_execs(rng, plans[("turtle", False)], phones), "probes", rounds=1, max_fail=24, learn=True)
+    D.process(collision_probes(rng, plans[("turtle", False)], phones, set(), libdir), "collisions", rounds=1, max_fail=8)
     rep.notes["input_classes_failing_in_probes"] = sorted(D.broken)
     lap("probes")
 
